@@ -49,7 +49,7 @@ def gen(seed, tier):
             ops.append(['PUSH', ['v', order[-1]], ['a', val], rng.random() < 0.3])
             ops.append(['POP', rng.choice(('close', 'drop', 'resume', 'throw'))])
         ops.append(['PUSH', ['v', order[0]], ['a', 'b'], True])
-    for _ in range(rng.randrange(1, 26)):
+    for _ in range(rng.randrange(1, 26 * (2 if tier == 'thorough' else 1))):
         k = rng.random()
         if k < 0.06:
             ops.append(['NEWVAR'])
